@@ -9,7 +9,7 @@ import tempfile
 
 import numpy as np
 
-STRS = ["", "J0", "B1937+21"]
+STRS = ["", "J0", "B1937+21", "pad  ", " lead"]
 
 
 def enc_str(s):
@@ -24,7 +24,7 @@ def sample_value(fmt, rng):
     return float(rng.normal() * 1e3)
 
 
-def build(keys, rng, with_defaults=True):
+def build(keys, rng, with_defaults=True, sshift=0):
     from sigpyproc.io.sigproc import header_keys
     ents = []
     for i, k in enumerate(keys):
@@ -32,7 +32,7 @@ def build(keys, rng, with_defaults=True):
         if f == "str" and not with_defaults:      # same strings as the edit harness
             sv = STRS[2] if k == "source_name" else STRS[1]
         else:
-            sv = STRS[(i + len(k)) % len(STRS)]
+            sv = STRS[(i + len(k) + sshift) % len(STRS)]
         ents.append((k, f, sv if f == "str" else sample_value(f, rng)))
     if with_defaults:
         if "nbits" not in keys:
@@ -53,7 +53,7 @@ def main(p):
     with tempfile.TemporaryDirectory() as d:
         fn = os.path.join(d, "h.fil")
         if p["kind"] == "roundtrip":
-            raw, ents = build(p["keys"], rng)
+            raw, ents = build(p["keys"], rng, sshift=p.get("sshift", 0))
             data = bytes(rng.integers(0, 256, 37, dtype=np.uint8))
             open(fn, "wb").write(raw + data)
             try:
